@@ -155,7 +155,8 @@ def classify(tr, l, clause):
             return "two_grants_in_one_instant"
         return "other"
     if clause == "T_C13_NoAdmit":
-        return "granted_while_head_waits"
+        # how many items were on the belt (waiting head included) when the reservation was granted
+        return "granted_while_head_waits" if e.get("n", 0) <= 1 else "granted_while_head_waits_and_items_travel"
     if clause == "T_C13_Frozen":
         if e["t"] == t_of.get(("enter", x), -99) + L:
             return "never_stopped"
